@@ -188,6 +188,18 @@ def gen():
     opt_skips = any(isinstance(st, ast.If) and "self.optimizer is not None" in ast.unparse(st.test)
                     and "not frame.eval_ctx.volatile" in ast.unparse(st.test) for st in ast.walk(oc_fn))
 
+    # Filter/Test/Getattr/Getitem.as_const pass their result through `_const_result`, which rejects values without a safe repr
+    cr_fn = find_func(nodes, "_const_result")
+    cr_ok = any(isinstance(st, ast.If) and "has_safe_repr" in ast.unparse(st.test) and "not " in ast.unparse(st.test)
+                and raises_impossible(st.body) for st in ast.walk(cr_fn))
+    ga_fn = method(find_class(nodes, "Getattr"), "as_const")
+    gi_fn = method(find_class(nodes, "Getitem"), "as_const")
+
+    def returns_all_checked(fn):
+        rets = [r for r in ast.walk(fn) if isinstance(r, ast.Return) and r.value is not None]
+        return bool(rets) and all(isinstance(r.value, ast.Call) and ast.unparse(r.value.func) == "_const_result" for r in rets)
+    result_safe = cr_ok and returns_all_checked(ft_fn) and returns_all_checked(ga_fn) and returns_all_checked(gi_fn)
+
     guards = dict(
         binIntercept=has_guard(bin_fn, ["sandboxed", "self.operator in", "intercepted_binops"]),
         unIntercept=has_guard(un_fn, ["sandboxed", "self.operator in", "intercepted_unops"]),
@@ -200,6 +212,7 @@ def gen():
         condNoElse=cond_no_else,
         fromUntrusted=from_untrusted,
         optSkipsVolatile=opt_skips,
+        resultSafeRepr=result_safe,
     )
     frows = decorations(filters, "FILTERS", MODELLED_FILTERS, "filter")
     trows = decorations(tests, "TESTS", MODELLED_TESTS, "test")
